@@ -39,8 +39,16 @@ pub fn dispatch(a: &ShardArgs) -> Result<(), String> {
             super::out::count(&format!("event_buffer_audits_at_{site}"), n);
         }
     }
+    let own = a.check.to_uppercase();
     for f in super::probe::take_audit_failures() {
+        // the running check's own property first: structural damage of the buffer under its workload is its finding too
+        let mut props = vec![own.as_str()];
         for p in ["C03", "C13"] {
+            if !props.contains(&p) {
+                props.push(p);
+            }
+        }
+        for p in props {
             super::out::violation(
                 p,
                 &format!("{p}.audit.{}", f.rule),
